@@ -133,7 +133,6 @@ impl UnixListener {
             let _ = rusl::unistd::close(fd);
             return Err(e.into());
         }
-        rusl::network::listen(fd, NonNegativeI32::MAX)?;
         Ok(Self(OwnedFd(fd)))
     }
 
